@@ -1,5 +1,6 @@
 import Refine.Lemmas.ReproEdge
 import Refine.Lemmas.ReproSchedNative
+import Refine.Lemmas.ReproSchedSpec
 import Refine.Gen.SideConds
 import Refine.Gen.ReproConds
 
@@ -229,17 +230,7 @@ theorem gather_schedule_independent [Inhabited α] (ty : RefType) (maxTag : Int)
     p2pSched a1 c (gatherPosted ty maxTag w) = p2pSched a2 c (gatherPosted ty maxTag w) := by
   apply p2pSched_congr_arrival
   apply fifoEq_of_perm_nodup (h1.trans h2.symm)
-  apply (h2.map key3).nodup_iff.2
-  apply allMsgs_nodup
-  intro p hp
-  unfold gatherPosted at hp
-  rw [List.mem_mapIdx] at hp
-  obtain ⟨i, hi, rfl⟩ := hp
-  simp only []
-  split
-  · simp
-  · have hs := postAll_sublist ty maxTag (fun (m : Msg α) => m.tag) [⟨0, (i : Int), w[i]⟩]
-    exact ((hs.map _).nodup (by simp))
+  exact (h2.map key3).nodup_iff.2 (allMsgs_nodup _ (gatherPosted_msgs_nodup ty maxTag w))
 
 /-- the rank-0 scatter loop (`ref_mpi_scatter_send` to worker 1, 2, …; one `ref_mpi_scatter_recv` per worker) -/
 theorem scatter_schedule_independent [Inhabited α] (ty : RefType) (maxTag : Int) (chunks : List (List α))
@@ -248,34 +239,7 @@ theorem scatter_schedule_independent [Inhabited α] (ty : RefType) (maxTag : Int
     p2pSched a1 c (scatterPosted ty maxTag chunks) = p2pSched a2 c (scatterPosted ty maxTag chunks) := by
   apply p2pSched_congr_arrival
   apply fifoEq_of_perm_nodup (h1.trans h2.symm)
-  apply (h2.map key3).nodup_iff.2
-  apply allMsgs_nodup
-  intro p hp
-  unfold scatterPosted at hp
-  rw [List.mem_mapIdx] at hp
-  obtain ⟨i, hi, rfl⟩ := hp
-  simp only []
-  split
-  · have hs := postAll_sublist ty maxTag (fun (m : Msg α) => m.tag)
-      (((chunks.zipIdx).drop 1).map fun (cp : List α × Nat) => (⟨(cp.2 : Int), (cp.2 : Int), cp.1⟩ : Msg α))
-    apply (hs.map _).nodup
-    rw [List.map_map]
-    have hidx : ((chunks.zipIdx).drop 1).Pairwise (fun a b => a.2 ≠ b.2) := by
-      have h0 : (chunks.zipIdx).Pairwise (fun a b => a.2 ≠ b.2) := by
-        have := List.nodup_range' (s := 0) (n := chunks.length) (step := 1)
-        rw [← List.zipIdx_map_snd 0 chunks] at this
-        unfold List.Nodup at this
-        rw [List.pairwise_map] at this
-        exact this
-      exact h0.sublist (List.drop_sublist 1 _)
-    unfold List.Nodup
-    rw [List.pairwise_map]
-    apply hidx.imp
-    intro a b hab heq
-    apply hab
-    have := (Prod.mk.inj heq).1
-    exact Int.ofNat.inj this
-  · simp
+  exact (h2.map key3).nodup_iff.2 (allMsgs_nodup _ (scatterPosted_msgs_nodup ty maxTag chunks))
 
 theorem scatterSched_seed_independent [Inhabited α] (seed1 seed2 : Nat) (ty : RefType) (maxTag : Int)
     (chunks : List (List α)) : scatterSched seed1 ty maxTag chunks = scatterSched seed2 ty maxTag chunks := by
@@ -286,6 +250,78 @@ theorem gatherSched_seed_independent [Inhabited α] (seed1 seed2 : Nat) (ty : Re
     (w : World (List α)) : gatherSched seed1 ty maxTag w = gatherSched seed2 ty maxTag w := by
   unfold gatherSched
   exact gather_schedule_independent ty maxTag w _ _ (shuffled_perm _ _) (shuffled_perm _ _) _
+
+/-! the common value of all schedules is the order-free matcher `p2pExchange` that C17's theorems are about -/
+
+/-- **every schedule computes `p2pExchange`**: any delivery permutation of the posted messages, any completion
+    permutation on every rank, when every rank sends to pairwise distinct (dest, tag), receives from pairwise
+    distinct (source, tag) and its receives address disjoint in-bounds regions -/
+theorem p2p_every_schedule_is_the_exchange (w : World (Posted α)) (a : List (Env α)) (c : Nat → List Nat)
+    (ha : a.Perm (allMsgs w)) (hc : ∀ r, (c r).Perm (canonOrder w r))
+    (hmsg : ∀ p ∈ w, (p.msgs.map fun m => (m.dest, m.tag)).Nodup)
+    (hr : ∀ p ∈ w, (p.rcvs.map fun rq => (rq.source, rq.tag)).Nodup)
+    (hok : ∀ p ∈ w, RecvsOk p.buf.length p.rcvs) :
+    p2pSched a c w = p2pExchange w :=
+  p2pSched_eq_p2pExchange w a c ha hc hmsg hr hok
+
+/-- the scheduled native all-to-all the driver `repro` runs IS `Refine.Model.Comm.alltoallvNative` (the function of
+    C17's `alltoallv_native_spec`), for every seed -/
+theorem alltoallvNativeSched_eq_alltoallvNative (seed : Nat) (ty : RefType) (maxTag n : Int) (w : World (A2A α))
+    (hn : 0 ≤ n) (hw : ∀ a ∈ w, (∀ s ∈ a.recvSize, 0 ≤ s) ∧ n * a.recvSize.sum ≤ (a.recv.length : Int)) :
+    alltoallvNativeSched seed ty maxTag n w = alltoallvNative ty maxTag n w := by
+  rw [alltoallvNative_is_exchange_of_nativeWorld]
+  unfold alltoallvNativeSched
+  show p2pSched _ _ (nativeWorld ty maxTag n w) = _
+  have hmem : ∀ p ∈ nativeWorld ty maxTag n w, ∃ (i : Nat) (hi : i < w.length),
+      p = nativePost ty (w.length : Int) maxTag (i : Int) n w[i] := by
+    intro p hp
+    unfold nativeWorld at hp
+    rw [List.mem_mapIdx] at hp
+    obtain ⟨i, hi, rfl⟩ := hp
+    exact ⟨i, hi, rfl⟩
+  apply p2pSched_eq_p2pExchange
+  · exact shuffled_perm _ _
+  · intro r
+    rw [canonOrder_eq_getD]
+    exact permOf_perm _ _
+  · intro p hp
+    obtain ⟨i, hi, rfl⟩ := hmem p hp
+    exact nativePost_msgs_nodup ty _ maxTag _ n _
+  · intro p hp
+    obtain ⟨i, hi, rfl⟩ := hmem p hp
+    exact nativePost_rcvs_nodup ty _ maxTag _ n _
+  · intro p hp
+    obtain ⟨i, hi, rfl⟩ := hmem p hp
+    obtain ⟨hs, hl⟩ := hw w[i] (List.getElem_mem hi)
+    exact nativePost_recvsOk ty _ maxTag _ n hn _ hs hl
+
+/-- the scheduled rank-0 gather loop IS `Refine.Model.Comm.gather` (C17's `gather_spec`), for every seed -/
+theorem gatherSched_eq_gather [Inhabited α] (seed : Nat) (ty : RefType) (maxTag : Int) (w : World (List α)) :
+    gatherSched seed ty maxTag w = gather ty maxTag w := by
+  rw [gather_is_exchange_of_gatherPosted]
+  unfold gatherSched
+  have hc : (fun r => List.range (((gatherPosted ty maxTag w).getD r ⟨Refine.Model.Comm.Status.ok, [], [], []⟩).rcvs.length))
+      = canonOrder (gatherPosted ty maxTag w) := by
+    funext r; rw [canonOrder_eq_getD]
+  show p2pSched _ (fun r => List.range (((gatherPosted ty maxTag w).getD r ⟨Refine.Model.Comm.Status.ok, [], [], []⟩).rcvs.length))
+    (gatherPosted ty maxTag w) = _
+  rw [hc]
+  exact p2pSched_eq_p2pExchange_blocking _ _ (shuffled_perm _ _) (gatherPosted_msgs_nodup ty maxTag w)
+    (gatherPosted_rcvs_nodup ty maxTag w)
+
+/-- the scheduled rank-0 scatter loop IS `Refine.Model.Comm.scatter` (C17's `scatter_spec`), for every seed -/
+theorem scatterSched_eq_scatter [Inhabited α] (seed : Nat) (ty : RefType) (maxTag : Int) (chunks : List (List α)) :
+    scatterSched seed ty maxTag chunks = scatter ty maxTag chunks := by
+  rw [scatter_is_exchange_of_scatterPosted]
+  unfold scatterSched
+  have hc : (fun r => List.range (((scatterPosted ty maxTag chunks).getD r ⟨Refine.Model.Comm.Status.ok, [], [], []⟩).rcvs.length))
+      = canonOrder (scatterPosted ty maxTag chunks) := by
+    funext r; rw [canonOrder_eq_getD]
+  show p2pSched _ (fun r => List.range (((scatterPosted ty maxTag chunks).getD r ⟨Refine.Model.Comm.Status.ok, [], [], []⟩).rcvs.length))
+    (scatterPosted ty maxTag chunks) = _
+  rw [hc]
+  exact p2pSched_eq_p2pExchange_blocking _ _ (shuffled_perm _ _) (scatterPosted_msgs_nodup ty maxTag chunks)
+    (scatterPosted_rcvs_nodup ty maxTag chunks)
 
 /-! ### non-vacuity: a 3-rank exchange; two seeds give different schedules and the answer is C17's -/
 
